@@ -7,6 +7,7 @@ import (
 	"sync/atomic"
 	"time"
 
+	"github.com/cbeuw/Cloak/internal/common"
 	"github.com/cbeuw/Cloak/internal/server/usermanager"
 
 	mux "github.com/cbeuw/Cloak/internal/multiplex"
@@ -125,6 +126,7 @@ type usagePair struct {
 // updateUsageQueue zeroes the accumulated usage all ActiveUsers valve and put the usage data im usageUpdateQueue
 func (panel *userPanel) updateUsageQueue() {
 	panel.activeUsersM.Lock()
+	common.VerifPoint("usage.firstLockHeld")
 	panel.usageUpdateQueueM.Lock()
 	for _, user := range panel.activeUsers {
 		if user.bypass {
